@@ -507,7 +507,8 @@ def run(ctx: Context):
         r.site(an, st_nodes[0].ast if st_nodes else None, "share entered in the map")
         for n in st_nodes:
             r.require(_enters(n), an, an.loc(n.ast), "add_new_share stores %s: make_versionmap() expects a %d-field key and "
-                      "the version at field %d of a %d-field value" % (src(an, n.ast), key_len, vpos[0], val_len))
+                      "the version (parameter '%s', which the updater binds to the verinfo) at field %d of a %d-field "
+                      "value" % (src(an, n.ast), key_len, aps[0], vpos[0], val_len))
         lost = find_path_avoiding(acfg, lambda x: x.kind == "exit", gate_node=_enters, skip_exc_edges=True)
         for (t, w) in lost:
             r.violation(an, an.loc(), "add_new_share can return without entering the share in _known_shares: the "
